@@ -212,6 +212,13 @@ class Number(ExcelType):
     def __number__(self):
         return self.value
 
+    def __str__(self):
+        # Excel has one number type: 2/2 has the text form "1", not "1.0".
+        if isinstance(self.value, float) and self.value.is_integer() \
+                and abs(self.value) < 1e15:
+            return str(int(self.value))
+        return str(self.value)
+
     def __datetime__(self):
         return utils.number_to_datetime(self.value)
 
